@@ -35,6 +35,7 @@ extern sexp_uint_t sexp_allocated_bytes (sexp ctx, sexp x);
 static sexp ctx, env;
 static sexp *obj;            /* NOT rooted: plain C pointers, compared but never dereferenced once an object may be dead */
 static char *dead;
+static char *kindof;         /* 'K' 'C' 'V': objects made by the history carry their id (see stamp); 0: not stamped (E) */
 static long maxid = 0;
 static unsigned long audit_failures = 0, opno = 0;
 static int eval_mode = 0;
@@ -136,6 +137,24 @@ static void record (long id, sexp x) {
   else { printf("N %ld i\n", id); dead[id] = 2; }
 }
 
+/* identity of the history's own objects: an address that is an object start again after a collection may hold ANOTHER
+   object (a cons cell of the preservatives list, a later object of the history), so every K / C / V object carries its
+   id: bytes in their first 8 bytes, pairs in the `source` member, vectors in an extra last element */
+static void stamp (sexp x, long id, char kind) {
+  if (kind == 'K') memcpy(sexp_bytes_data(x), &id, sizeof id);
+  else if (kind == 'C') sexp_pair_source(x) = sexp_make_fixnum(id);
+  else if (kind == 'V') sexp_vector_data(x)[sexp_vector_length(x) - 1] = sexp_make_fixnum(id);
+}
+static int same_object (sexp x, long id) {     /* x is the start of an object of the heap */
+  long v;
+  switch (kindof[id]) {
+  case 'K': if (!sexp_bytesp(x) || sexp_bytes_length(x) < sizeof v) return 0; memcpy(&v, sexp_bytes_data(x), sizeof v); return v == id;
+  case 'C': return sexp_pairp(x) && sexp_pair_source(x) == sexp_make_fixnum(id);
+  case 'V': return sexp_vectorp(x) && sexp_vector_length(x) > 0 && sexp_vector_data(x)[sexp_vector_length(x) - 1] == sexp_make_fixnum(id);
+  default: return 1;
+  }
+}
+
 static sexp ob (long id) { return (id > 0 && id < MAXIDS && obj[id] && dead[id] != 1) ? obj[id] : SEXP_FALSE; }
 
 static void report_liveness (void) {
@@ -143,7 +162,7 @@ static void report_liveness (void) {
   printf("L ");
   for (id = 1; id <= maxid; id++)
     if (obj[id] && dead[id] == 0) {
-      int alive = is_start(obj[id]);
+      int alive = is_start(obj[id]) && same_object(obj[id], id);
       printf("%s%ld:%d", first ? "" : ",", id, alive);
       first = 0;
       if (!alive) dead[id] = 1;
@@ -162,17 +181,17 @@ static int run_ops (sexp tmp, int depth) {
     x = NULL;
     switch (kind) {
     case 'K': a[0] = strtol(p, &p, 10); a[1] = strtol(p, &p, 10);
-      x = sexp_make_bytes(ctx, sexp_make_fixnum(a[1] > 0 ? a[1] : 1), SEXP_ZERO); break;
+      x = sexp_make_bytes(ctx, sexp_make_fixnum(a[1] > 8 ? a[1] : 8), SEXP_ZERO); break;
     case 'C': a[0] = strtol(p, &p, 10); a[1] = strtol(p, &p, 10); a[2] = strtol(p, &p, 10);
       x = sexp_cons(ctx, ob(a[1]), ob(a[2])); break;
     case 'V': a[0] = strtol(p, &p, 10); a[1] = strtol(p, &p, 10);
-      x = sexp_make_vector(ctx, sexp_make_fixnum(a[1] > 0 ? a[1] : 1), SEXP_FALSE); break;
+      x = sexp_make_vector(ctx, sexp_make_fixnum((a[1] > 0 ? a[1] : 1) + 1), SEXP_FALSE); break;   /* + the id element */
     case 'E': a[0] = strtol(p, &p, 10); while (*p == ' ') p++;
       x = eval_mode ? sexp_eval_string(ctx, p, -1, env) : SEXP_FALSE; break;
     case 'S': a[0] = strtol(p, &p, 10); a[1] = strtol(p, &p, 10); a[2] = strtol(p, &p, 10);
       { sexp o = ob(a[0]);
         if (sexp_pairp(o)) { if (a[1] == 0) sexp_car(o) = ob(a[2]); else sexp_cdr(o) = ob(a[2]); }
-        else if (sexp_vectorp(o) && a[1] >= 0 && a[1] < (long)sexp_vector_length(o)) sexp_vector_data(o)[a[1]] = ob(a[2]); }
+        else if (sexp_vectorp(o) && a[1] >= 0 && a[1] < (long)sexp_vector_length(o) - 1) sexp_vector_data(o)[a[1]] = ob(a[2]); }
       continue;
     case 'P': a[0] = strtol(p, &p, 10); sexp_preserve_object(ctx, ob(a[0])); print_pres(); continue;
     case 'R': a[0] = strtol(p, &p, 10);
@@ -205,6 +224,7 @@ static int run_ops (sexp tmp, int depth) {
     if (x == NULL) continue;
     if (kind != 'E' && sexp_exceptionp(x)) { printf("OOM op=%lu\n", opno); record(a[0], SEXP_FALSE); continue; }
     sexp_vector_set(tmp, SEXP_ZERO, x);
+    if (kind != 'E' && a[0] > 0 && a[0] < MAXIDS) { kindof[a[0]] = kind; stamp(x, a[0], kind); }
     record(a[0], x);
     if (kind == 'E' && sexp_exceptionp(x)) {      /* what kind of exception, and how long its stack trace is */
       sexp m = sexp_exception_message(x), tr; long n = 0;
@@ -223,7 +243,7 @@ int main (int argc, char **argv) {
   eval_mode = !strcmp(argv[1], "eval");
   in = argc > 4 ? fopen(argv[4], "r") : stdin;
   if (!in) { fprintf(stderr, "cannot open %s\n", argv[4]); return 2; }
-  obj = (sexp*) calloc(MAXIDS, sizeof(sexp)); dead = (char*) calloc(MAXIDS, 1);
+  obj = (sexp*) calloc(MAXIDS, sizeof(sexp)); dead = (char*) calloc(MAXIDS, 1); kindof = (char*) calloc(MAXIDS, 1);
   if (eval_mode) {
     ctx = sexp_make_eval_context(NULL, NULL, NULL, size, max);
     if (!ctx || sexp_exceptionp(ctx)) { fprintf(stderr, "no context\n"); return 2; }
